@@ -207,3 +207,36 @@ extern "C" void h_printed_int()
     vcheck(0, "witness");
 #endif
 }
+
+// convertToInt at and beyond the limits of int: text = optional '-' + a fixed stem + one or two symbolic last digits
+extern "C" void h_int_range()
+{
+    int stem = vin(0, 3);
+    bool neg = vin(0, 1) != 0;
+    int d1 = vin(0, 9);
+    int d2 = vin(0, 10); // 10: no second extra digit
+    std::string t;
+    if (neg) t.push_back('-');
+    t.append(stem == 0 ? "214748364" : stem == 1 ? "429496729" : stem == 2 ? "922337203685477580" : "99999999");
+    t.push_back((char)('0' + d1));
+    if (d2 < 10) t.push_back((char)('0' + d2));
+    // the value, exactly (the longest text has 21 digits: compare as a decimal string against the limits)
+    long long limitStem = stem == 0 ? 214748364LL : stem == 1 ? 429496729LL : stem == 3 ? 99999999LL : -1;
+    bool fits = false;
+    long long value = 0;
+    if (limitStem >= 0) {
+        value = limitStem * 10 + d1;
+        if (d2 < 10) value = value * 10 + d2;
+        if (neg) value = -value;
+        fits = value >= -2147483648LL && value <= 2147483647LL;
+    }
+    int out = 0;
+    bool ok = convertToInt(t, out);
+    NO_UNCAUGHT_AT("convertToInt at the int limits");
+    vouts("text", t); vout("ok", ok);
+    vcheck(ok == fits, "convertToInt succeeds exactly for integers that fit into an int");
+    if (ok) vcheck((long long)out == value, "convertToInt returns the value of the text");
+#ifdef WITNESS
+    vcheck(0, "witness");
+#endif
+}
